@@ -202,6 +202,13 @@ open TongoGen.TlbTypes in
 theorem impl_eq_spec_MsgMetadata : implementsSpec env desc_tlb_MsgMetadata Spec.MsgMetadata = true := by
   decide +kernel
 
+/-! wallet v5 beta (transcribed from the repository's own writer and reader of the body) -/
+open TongoGen.TlbTypes in
+theorem impl_eq_spec_WalletV5ID : implementsSpec env desc_wallet_WalletV5ID Spec.WalletV5ID = true := by decide +kernel
+open TongoGen.TlbTypes in
+theorem impl_eq_spec_WalletV5BetaBody :
+    implementsSpec env desc_wallet_MessageV5Beta Spec.WalletV5BetaBody = true := by decide +kernel
+
 /-! highload wallet v2: the body after the signature -/
 open TongoGen.TlbTypes in
 theorem impl_eq_spec_HighloadV2Body :
